@@ -285,6 +285,44 @@ def run_one(seed, races):
     return {'seed': seed, 'steps': steps}, None
 
 
+def run_big(seed):
+    '''More new transactions than one fetch batch (200): several long chains whose links fall into different batches in
+    an arbitrary order, all arriving in one refresh; then one quiet refresh must be exact.'''
+    rnd = random.Random(seed)
+    m = Model(rnd)
+    for i in range(30, 260):
+        m.utxos[(dsha(b'c%d' % i), 0)] = (coin.hashX_from_script(rnd.choice(m.scripts)), rnd.randrange(1000, 100000))
+    mp = MemPool(coin, m)
+    # chains: each link spends the previous link's output 0
+    for c in range(rnd.randrange(3, 7)):
+        av = [op for op in m.utxos if op not in m.spent]
+        op = rnd.choice(av)
+        for link in range(rnd.randrange(5, 12)):
+            outs = [(rnd.randrange(1, 500), rnd.choice(m.scripts))]
+            raw = ser([op], outs)
+            t = dsha(raw)
+            m.pool[t] = ([op], outs, raw)
+            m.spent.add(op)
+            op = (t, 0)
+    while len(m.pool) < rnd.randrange(420, 640):
+        av = [op for op in m.utxos if op not in m.spent]
+        if not av:
+            break
+        op = rnd.choice(av)
+        outs = [(rnd.randrange(1, 500), rnd.choice(m.scripts))]
+        raw = ser([op], outs)
+        m.pool[dsha(raw)] = ([op], outs, raw)
+        m.spent.add(op)
+    desc = {'seed': seed, 'scenario': 'big-refresh', 'transactions': len(m.pool)}
+    touched = set()
+    try:
+        asyncio.run(refresh(mp, m, touched))
+    except BaseException as e:   # noqa
+        return desc, f'the refresh raised {e!r}'
+    bad = check_inverse(mp) or check_exact(mp, m)
+    return desc, bad
+
+
 def main():
     req = json.loads(sys.stdin.read() or '{}')
     mode = req.get('mode') or ('c09' if 'c09' in (req.get('obligation') or '').lower() else 'c08')
@@ -292,7 +330,10 @@ def main():
     seed0 = int(req.get('seed') or 0) * 7919
     for i in range(rounds):
         try:
-            desc, bad = guarded(run_one, seed0 + i, mode == 'c09')
+            if mode == 'c08' and i % 8 == 7:
+                desc, bad = guarded(run_big, seed0 + i)
+            else:
+                desc, bad = guarded(run_one, seed0 + i, mode == 'c09')
         except ScenarioHang:
             desc, bad = {'seed': seed0 + i}, 'the refresh did not finish within 120 s (normal: < 1 s)'
         except BaseException as e:   # noqa
